@@ -141,3 +141,20 @@ pub(crate) fn lean_headername_as_str(a: &HeaderName) -> &str {
 pub(crate) const X_NULL: HeaderName = HeaderName::from_static("x-null");
 pub(crate) const X_A: HeaderName = HeaderName::from_static("x-a");
 pub(crate) const X_KEEP: HeaderName = HeaderName::from_static("x-keep");
+
+use http::Method;
+
+/// The nine standard methods, by menu index.
+pub(crate) fn method_at(i: usize) -> Method {
+    match i {
+        0 => Method::GET,
+        1 => Method::HEAD,
+        2 => Method::POST,
+        3 => Method::PUT,
+        4 => Method::DELETE,
+        5 => Method::CONNECT,
+        6 => Method::OPTIONS,
+        7 => Method::TRACE,
+        _ => Method::PATCH,
+    }
+}
